@@ -6,6 +6,15 @@ Props_C16.v.  Tie X: the real class, entered through its context manager exactly
 the model (vm_compute); the observable state (value, queue with job ids and weights in order, who is inside the body,
 order of entry into the bodies) is compared after every Settle.  Oracle: capacity / FIFO / no-lost-wake-up judged only from what the jobs
 experience (who is in a body, who is blocked), never from the semaphore's fields.
+
+The worker's USE of the semaphore (batch/batch/worker/worker.py: `async with self.worker.cpu_sem(self.cpu_in_mcpu)` in
+DockerJob.run / JVMJob.run) with task cancellation at every await point: model coq/theories/SemFifo/Use.v (Spawn / Finish /
+Cancel / USettle over asyncio's ready queue; reservation pattern AcquireThenTry | AcquireInTry as a parameter), theorems in
+Props_C16.v (C16_use_*).  Tie T: harness/impl/c16_usesite.py classifies EVERY occurrence of `cpu_sem` in worker.py (fail
+closed) and checks the context manager of semaphore.py; the pattern of every use site goes to coq/generated/C16/Gen.v and the
+theorems are stated for the generated sites.  Tie X + oracle: harness/impl/c16_use.py extracts the real run() methods (body of
+the reservation replaced by a harness body) and every helper the reservation goes through, verbatim, and runs them with the
+real semaphore, real tasks and real task.cancel() on the deterministic loop.
 """
 from harness.core import Corr, Disagreement, Failure, TieBroken, coq_eval, zlit, listlit
 from harness.impl import c16_usesite
@@ -17,7 +26,9 @@ READY = True
 META = dict(
     design_ref='§5.C C16',
     technique='Coq proof (invariant induction over arbitrary action lists) about a hand-written executable model of '
-              'FIFOWeightedSemaphore; correspondence of the model with the real class on a deterministic asyncio loop',
+              'FIFOWeightedSemaphore; correspondence of the model with the real class on a deterministic asyncio loop; '
+              'for the worker: model of the use pattern with cancellation whose pattern parameter is regenerated from worker.py by a '
+              'fail-closed AST walker, correspondence with the reservation code extracted from worker.py',
     level_text='Machine-checked theorems (Coq 8.16, closed under the global context) over ALL lists of Acquire(w)/Release(i)/Settle '
                'actions, any number of jobs, any capacity: free value + granted weights = capacity and (weights >= 0) the granted '
                'weights never exceed the capacity; the jobs granted so far are exactly the first k arrivals in arrival order and the '
@@ -28,18 +39,35 @@ META = dict(
                'after every settle: exhaustive small scope plus seeded random schedules plus LARGE-POPULATION schedules (bursts of 1..300 '
                '(thorough 513) simultaneous waiters behind a holder around every power of two, unit/whole-machine/half-machine weights, and '
                'random mixed-weight acquire/release crowds held at 65..300 simultaneous waiters, each drained to the end), so that any bound '
-               'on the number of waiters, or behaviour that only appears with long queues, shows up in the tie and in the oracle.',
+               'on the number of waiters, or behaviour that only appears with long queues, shows up in the tie and in the oracle. '
+               'WORKER LEVEL (worker.py): every use of cpu_sem is classified from the source on every run; proved for the generated use sites, '
+               'for ALL lists of Spawn(w)/Finish(i)/Cancel(i)/Settle actions and after any number of further single task steps (i.e. at every await '
+               'point; cancellation before the first step, while queued at the head or behind others, after the grant but before resuming, inside the '
+               'body, after the end, repeatedly): the jobs inside their bodies never weigh more than the capacity (C16_use_capacity); free value + '
+               'running + granted-not-yet-resumed + taken-for-dead-tasks = capacity, nothing is released that was not acquired, and every grant is '
+               'released exactly once or still held or went to a task cancelled inside acquire (C16_use_grants_match_releases); the model refutes the '
+               'acquire-inside-the-guard pattern (C16_use_acquire_inside_guard_unsafe). The use model is tied by running the real reservation code '
+               'extracted from worker.py (both job classes, helpers verbatim) with real task.cancel() against the model: exhaustive small scope '
+               '(settled and batched) plus random schedules, value / deque incl. dead entries / running jobs / entry order compared after every settle.',
     level_note='The theorems are about the hand model; the tie to batch/batch/semaphore.py is the correspondence run (sampled), not a '
-               'translation. Cancellation of waiters is outside the property (its quantifier is acquire/release interleavings) and is '
-               'not modelled. Trusted: Coq kernel, CPython asyncio, harness/aio/detloop.py, harness/impl/c16_fifo.py.',
+               'translation. Cancellation: the property text quantifies over acquire/release interleavings; under cancellation only the SAFETY clause '
+               '(never more than the capacity; grants match releases) is claimed and checked at the worker level. Faithful to the code, a waiter '
+               'cancelled while queued leaves its entry in the deque and the weight later granted to it is lost for good '
+               '(C16_use_cancelled_waiter_loses_capacity states this limit): FIFO/liveness under cancellation are NOT claimed. The body of run() is '
+               'replaced by a harness body (only the reservation statement and its helpers are real code). Trusted: Coq kernel, CPython asyncio, harness/aio/detloop.py, harness/impl/c16_fifo.py, '
+               'harness/impl/c16_usesite.py (AST walker), harness/impl/c16_use.py.',
     partial=False,
 )
 TRUSTED = ['harness/aio/detloop.py (deterministic stepping of a real asyncio SelectorEventLoop; CPython private attributes)',
            'harness/impl/c16_fifo.py (job coroutine `async with sem(w): await gate.wait()`; mapping queue entries to job ids via Event._waiters / Task._fut_waiter)',
-           'CPython 3.12 asyncio (FIFO ready queue, Event) as the semantics of the implementation']
+           'CPython 3.12 asyncio (FIFO ready queue, Event, Task.cancel) as the semantics of the implementation',
+           'harness/impl/c16_usesite.py (classification of every `cpu_sem` occurrence in worker.py; syntactic check of FIFOWeightedSemaphoreContextManager)',
+           'harness/impl/c16_use.py (run() cut down to the reservation statement by AST; unknown globals of extracted helpers are inert stubs)']
 ASSUMPTIONS = ['acquire up to its await and release contain no suspension point, hence are atomic under asyncio: an interleaving of jobs is a list of Acquire/Release/Settle actions',
                'only a job inside its `async with` body releases (Release of any other job is ignored by model and harness alike)',
-               'waiter cancellation is excluded (as in the property text)']
+               'semaphore level: waiter cancellation is excluded (as in the property text); worker level: cancellation anywhere, safety only',
+               'worker level: the semaphore is used only through the recognised use sites (every textual occurrence of cpu_sem in worker.py is classified; other modules are not scanned)',
+               'asyncio model of Use.v: Task.cancel() cancels the awaited future at once and delivers CancelledError at the task\'s next step in FIFO ready order']
 
 HEADER = 'From HailV Require Import Common.Prelude SemFifo.Model.\nOpen Scope Z_scope.'
 
@@ -507,6 +535,10 @@ def use_schedules(ctx):
         (2, [['a', 2], ['c', 0], ['a', 2], ['s'], ['c', 0], ['f', 1, 'raise'], ['s'], ['a', 1], ['s']]),
     ]
     out = []
+    import glob, json, os
+    for f in sorted(glob.glob(os.path.join(os.path.dirname(__file__), '..', '..', 'corpus', ID, 'use', '*.json'))):
+        for d in json.load(open(f)):
+            out.append(('use-corpus', {'cap': d['cap'], 'site': d.get('site', 0), 'acts': d['acts']}))
     for site in (0, 1):
         out += [('use-hand', {'cap': c, 'site': site, 'acts': a}) for c, a in hand]
         out += [('use-settled', {'cap': 2, 'site': site, 'acts': a}) for a in use_enum(2, [1, 2], 3, ctx.scale(5, 6), True)]
